@@ -55,8 +55,19 @@ def qCase (q hashHex level ver loginHex label out : String) : String :=
           | _ => s!"specfail {q}:{label} request-has-no-request-payload"
   | _, _, _, _ => "skip bad-args"
 
-def handle (inp out : String) : String :=
+partial def handle (inp out : String) : String :=
   match words inp with
+  | "sp" :: hashHex :: level :: ver :: keyHex :: replyHex :: _other :: rest =>
+    -- the caller's context holds another document's hash: what counts is the hash that was sent for signing
+    (handle (" ".intercalate (["s", hashHex, level, ver, keyHex, replyHex] ++ rest)) out).replace " s:" " sp:"
+  | "se" :: hashHex :: level :: keyHex :: _resp :: _ =>
+    -- the forged reply the executor put together (F…) is judged like any other reply: it must be refused
+    match (words out).find? (·.startsWith "F") with
+    | some f =>
+      let rest := " ".intercalate ((words out).filter (fun w => !w.startsWith "F"))
+      let v := handle s!"s {hashHex} {level} 1 {keyHex} {(f.drop 1).toString} reply-echoes-the-client's-own-request-and-mac" rest
+      v.replace " s:" " se:"
+    | none => if out.startsWith "REQUEST-FAILED" then "skip request-failed" else "specfail se short-impl-output"
   | "s" :: hashHex :: level :: ver :: keyHex :: replyHex :: rest =>
     let label := rest.headD "-"
     let ows := words out
